@@ -182,6 +182,13 @@ except in reviewed places (none in the current tree).  A table obligation. -/
 theorem C05_program_no_write_after_publish : pubReviewed pubRows = true := by
   decide +kernel
 
+/-- Obligation 7 (regenerated table): no method of a lock-owning type that takes
+the guard of a field itself returns a pointer, slice or map that still aliases
+the object kept in that field (instead of a clone), except in the reviewed
+places of guards.json `guarded_escape`.  A table obligation. -/
+theorem C05_program_no_guarded_escape_reviewed : escReviewed escRows = true := by
+  decide +kernel
+
 /-- Since R4, R5 and R11 are repaired in the tree, NO lock-order edge and NO
 acquisition of a gated lock is excluded any more: the exclusion lists are
 empty (this theorem stops checking, and has to be restated, if a finding is
